@@ -45,7 +45,12 @@ class InvertedBooleanCheckTransformer(LibcstResultTransformer):
             case cst.ComparisonTarget(operator=cst.Is(), comparator=cst.Name(value="False")):
                 # Handle 'not status is False' -> 'status'
                 self.report_change(original_node)
-                return comparison.left
+                # the parentheses of the replaced `not ...` now belong to the operand
+                left = comparison.left
+                return left.with_changes(
+                    lpar=[*updated_node.lpar, *left.lpar],
+                    rpar=[*left.rpar, *updated_node.rpar],
+                )
 
         if (inverted_comparisons := self._invert_comparisons(comparison)) is None:
             return updated_node
